@@ -93,9 +93,42 @@ Section Pipe.
     Definition sast_apply (v : index_form) (dry_run : bool) (results : option (list result)) (lines : list str)
       : option apply_out :=
       option_map (finish_apply dry_run lines) (sast_apply_lines v results lines).
+
+    (** the whole of apply(): the read/decode step and the failure handling around it and around _apply.
+        [decoded = None]: read_bytes().decode("utf-8") raises.  Outcomes: the call returns normally ([Done]), it records
+        a failure for the file -- returns None, writes nothing, add_failure(path, reason) files every finding of the file
+        context as unfixed with line 0 ([Failed]) --, or the exception escapes ([Raises]). *)
+    Inductive fail_kind := ReadFailed | TransformFailed.
+    Inductive file_outcome :=
+    | Done (o : apply_out)
+    | Failed (k : fail_kind) (unf : list unfixed)
+    | Raises.
+    Definition all_findings : list N := flat_map finding_list fc_results.
+    Definition isolate (iso : regex_isolation) (k : fail_kind) : file_outcome :=
+      match iso with
+      | NoTry => Raises
+      | TryReadTransform => Failed k (map (fun f => (f, 0%N)) all_findings)
+      end.
+    Definition regex_apply_file (iso : regex_isolation) (v : index_form) (dry_run : bool) (decoded : option (list str))
+      : file_outcome :=
+      match decoded with
+      | None => isolate iso ReadFailed
+      | Some lines => Done (regex_apply v dry_run lines)
+      end.
+    Definition sast_apply_file (iso : regex_isolation) (v : index_form) (dry_run : bool) (results : option (list result))
+               (decoded : option (list str)) : file_outcome :=
+      match decoded with
+      | None => isolate iso ReadFailed
+      | Some lines =>
+          match sast_apply v dry_run results lines with
+          | Some o => Done o
+          | None => isolate iso TransformFailed
+          end
+      end.
   End Apply.
 End Pipe.
 Arguments cs_diff {D}. Arguments cs_changes {D}. Arguments ao_ret {D}. Arguments ao_file {D}. Arguments ao_unfixed {D}.
+Arguments Done {D}. Arguments Failed {D}. Arguments Raises {D}.
 
 (** projections of the triple [_apply] returns (changes, updated_lines) + the unfixed findings it reported *)
 Definition r_changes (r : list change * list str * list unfixed) : list change := fst (fst r).
